@@ -17,6 +17,9 @@ def findings():
 def fixed():
     return "\n".join("* " + esc(x) for x in K["fixed"])
 
+FR = json.load(open(os.path.join(V, "seeded", "first_run.json")))
+
+
 def seeded():
     out = ["| seed | file / kind | what breaks | caught by (quick checks, after strengthening) | first run |", "|---|---|---|---|---|"]
     def key(d):
@@ -27,7 +30,8 @@ def seeded():
             continue
         m = json.load(open(os.path.join(d, "meta.json")))
         r = json.load(open(os.path.join(d, "result.json"))) if os.path.exists(os.path.join(d, "result.json")) else {}
-        first = r.get("first_run", "")
+        b = os.path.basename(d)
+        first = "missed" if b in FR["missed"] else "stopped as BROKEN" if b in FR["broken"] else ("missed; caught by " + FR["other"][b]) if b in FR["other"] else "caught"
         out.append("| %s | %s (%s) | %s | %s | %s |" % (os.path.basename(d), esc(",".join(m.get("files", [])))[:60], esc(m.get("kind", "")),
                                                      esc(m.get("what_breaks", m.get("title", "")))[:200], ", ".join(r.get("caught_by", [])) or "**missed**", esc(first)))
     return "\n".join(out)
